@@ -301,7 +301,10 @@ Definition user_ev (s : ep) (o : op) (e : event) : Prop :=
   \/ (e = EExc EX_KEY /\ exists id, o = OPop id /\ closed s = false /\ dict_get id (rx_map s) = None)
   \/ (e = EExc EX_RUNTIME /\ exists d, o = OSend d /\ closed s = false /\ in_term s = true).
 
-Ltac user_leaf := unfold ext_by; ep_cbn; repeat brk_any; ext_close ltac:(first [left; reflexivity | left; apply noexc_flush]).
+Lemma flush_user s o l : Forall (user_ev s o) (map fin_term_ev l).
+Proof. eapply Forall_impl; [|apply noexc_flush]. intros e H. left. exact H. Qed.
+
+Ltac user_leaf := unfold ext_by; ep_cbn; repeat brk_any; ext_close ltac:(first [left; reflexivity | apply flush_user]).
 
 Lemma step_user_events s o : non_user o = false -> ext_by (user_ev s o) s (step s o).
 Proof.
@@ -461,7 +464,10 @@ Lemma bad_contact_closes c s :
   contact_ok c = false ->
   let s' := fst (recv_frame (FContact c) s) in
   snd (recv_frame (FContact c) s) = None /\ closed s' = true /\ sent s' = sent s
-  /\ (closed s = false -> trace s' = trace s ++ [EClosed]).
+  /\ (closed s = false ->
+      trace s' = (trace s ++ map (fun it : N * bytes =>
+                                   ESig SigSendFinished [PStrNum (fst it); PInt 0; PStr RES_TERMINATING])
+                                (pend_start s)) ++ [EClosed]).
 Proof.
   intros H s'. subst s'. pose proof (recv_frame_spec (FContact c) s) as S.
   destruct (recv_frame (FContact c) s) as [s1 r1]. inversion S; subst; try congruence.
